@@ -6,7 +6,7 @@ dir_unix.c → dir_rec.c → dir_hl.c → dir_tree_iterator.c → glob.c:scan_di
 `sorted = true` is the model of the tree with fixes/C11-sorted-readdir.patch (native iterator sorts every
 directory); `sorted = false` is the code as pinned, for which the full statement is false (Sqfs/Witness/C11.lean).
 -/
-import Sqfs.Proofs.FsTree
+import Sqfs.Proofs.FsTreeScan
 
 namespace Sqfs.C11
 open Sqfs.FsTree
@@ -43,12 +43,53 @@ theorem scan_perm_invariant_glob {e₁ e₂ : List HNode} (h : FPerm e₁ e₂) 
   unfold globInto scanInto
   rw [nativeOrder_sorted_fperm h hwf]
 
+/-- **The code as pinned** (`sorted = false`: readdir order reaches the hard-link filter unchanged).
+The full statement is false for it (`Sqfs.Witness.C11.scan_order_dependent`); what is missing is exactly the case
+"some file has more than one name inside the scanned forest and hard-link detection is on".  Outside that case —
+`-H`/`-nohardlinks`, or pairwise different `(st_dev, st_ino)` of the non-directories — tree, inode numbering and
+file list do not depend on the enumeration, for every forest, every option set and every `fnmatch`. -/
+theorem scan_perm_invariant_partial {e₁ e₂ : List HNode} (h : FPerm e₁ e₂) (hwf : WFList e₁)
+    (d : Defaults) (cfg : Cfg) (fnm : Fnm) (rootDev : Nat)
+    (hno : hasFlag cfg.flags Consts.dirScanNoHardlinks = true ∨ NoMultiLink e₁) :
+    packDir false d cfg fnm rootDev e₁ = packDir false d cfg fnm rootDev e₂ := by
+  unfold packDir
+  rw [scanInto_false_fperm d cfg fnm rootDev h hwf hno]
+
+/-- … and the same for a `glob` line on top of any tree built so far. -/
+theorem scan_perm_invariant_glob_partial {e₁ e₂ : List HNode} (h : FPerm e₁ e₂) (hwf : WFList e₁)
+    (d : Defaults) (cfg : Cfg) (fnm : Fnm) (rootDev : Nat) (target : Path) (tree : TNode) (links : List Path)
+    (hno : hasFlag cfg.flags Consts.dirScanNoHardlinks = true ∨ NoMultiLink e₁) :
+    globInto false d cfg fnm rootDev e₁ target tree links = globInto false d cfg fnm rootDev e₂ target tree links := by
+  unfold globInto
+  cases mkdirImplicit d target tree with
+  | none => rfl
+  | some t1 =>
+    simp only
+    cases lookup t1 target with
+    | none => rfl
+    | some r =>
+      simp only
+      split
+      · rfl
+      · exact scanInto_false_fperm d cfg fnm rootDev h hwf hno t1 links
+
+/-- The repair does not change what the pinned code computes where that was well defined: outside the multiply-linked
+case the repaired and the pinned scan agree on every enumeration (so no image that did not depend on the readdir
+order changes a byte — the constraint of DESIGN.md §6 on a repair of D16). -/
+theorem repair_conservative (e : List HNode) (hwf : WFList e) (d : Defaults) (cfg : Cfg) (fnm : Fnm) (rootDev : Nat)
+    (hno : hasFlag cfg.flags Consts.dirScanNoHardlinks = true ∨ NoMultiLink e) :
+    packDir true d cfg fnm rootDev e = packDir false d cfg fnm rootDev e := by
+  have h := scan_perm_invariant_partial (fperm_nativeOrder e) hwf d cfg fnm rootDev hno
+  rw [h]
+  rfl
+
 /-! ### the hypotheses are satisfiable, the conclusion is not trivial -/
 
 private def st (mode ino : Nat) : Stat := { mode := mode, uid := 0, gid := 0, mtime := 0, dev := 1, ino := ino, rdev := 0 }
 private def fa : HNode := .mk [0x61] (st 0o100644 10) [] []
 private def fb : HNode := .mk [0x62] (st 0o100644 11) [] []
 private def fc : HNode := .mk [0x63] (st 0o100644 10) [] []           -- second name of `a`
+private def fe : HNode := .mk [0x65] (st 0o100644 13) [] []
 private def dd (c : List HNode) : HNode := .mk [0x64] (st 0o040755 12) [] c
 
 /-- `{a, b, c, d/{a, b}}` enumerated in two different orders (also inside `d`) -/
@@ -65,6 +106,16 @@ example : FPerm [fa, fb, fc, dd [fa, fb]] [dd [fb, fa], fc, fb, fa] := by
 
 example : WFList [fa, fb, fc, dd [fa, fb]] := by
   simp [WFList, WFNode, HNode.name, fa, fb, fc, dd]
+
+/-- `NoMultiLink` holds of a forest without the second name `c` … -/
+example : NoMultiLink [fa, fb, dd [fe]] ∧ WFList [fa, fb, dd [fe]] := by
+  refine ⟨?_, ?_⟩
+  · simp [NoMultiLink, keysList, keysNode, fa, fb, fe, dd, st, isDirMode, isType, Consts.sIFMT, Consts.sIFDIR]
+  · simp [WFList, WFNode, HNode.name, fa, fb, fe, dd]
+
+/-- … and fails of the witness forest (so `scan_perm_invariant_partial` does not contradict the witness) -/
+example : ¬ NoMultiLink [fa, fb, fc] := by
+  simp [NoMultiLink, keysList, keysNode, fa, fb, fc, st, isDirMode, isType, Consts.sIFMT, Consts.sIFDIR]
 
 example : (insertSorted (.mk [0x62] default []) [.mk [0x61] default [], .mk [0x63] default []]).map TNode.name
     = [[0x61], [0x62], [0x63]] := by decide
